@@ -1,61 +1,576 @@
 //! C13 executor.
 //!   `tab N`   -> `T <mnp[0..=N]> | <isp as 0/1 string> | <primes>`   (full tables of Sieve::new(N))
+//!                read in the plain order (all min_prime ascending, all is_prime ascending, primes() once);
+//!                afterwards the SAME Sieve is read again (descending, interleaved, primes() a second time) and
+//!                must give the same answers
 //!   `fact N`  -> `F <flat>`: for every m in 0..=N the pairs `p c` of factorize(m) followed by -1;
-//!                a panic inside factorize(m) (after the pairs already yielded) is -2 followed by -1
+//!                a panic inside factorize(m) (after the pairs already yielded) is -2 followed by -1.
+//!                First pass: `next()` by hand, ascending m, one iterator at a time; an exhausted iterator is asked
+//!                twice more and must keep answering `None`.  Second pass on the same Sieve: the provided Iterator
+//!                methods (`collect`, `for`, `count`, `last`, `fold`, `nth`, `size_hint`, `max`/`sum` through `map`,
+//!                `by_ref().take`, `peekable`, `chain`) must agree with the first pass.
+//!   `tabr N SEED`  -> the same line as `tab N`, but the values are collected by a seeded random history on one
+//!                Sieve: random / repeated / descending reads, primes() at random moments, factorize iterators
+//!                (up to three alive at a time, advanced alternately, some dropped half way) between the reads,
+//!                optionally after a larger or smaller Sieve was built in the same process.  Every repeated read
+//!                must equal the first one; every factorisation seen on the way must be the walk over the table.
+//!   `factr N SEED` -> the same line as `fact N`, but m in random order with repeats, up to three iterators alive
+//!                and advanced alternately, different consumption forms (`next`, `for`, `by_ref().take` + rest),
+//!                table reads in between.
+//!   An internal disagreement (two reads of one value differ, an adaptor disagrees with `next()`, ...) prints
+//!   `X <description>` instead of the observation: the plugin turns that into the Coq case `CIncoherent`,
+//!   which fails both checks.
 //!   `big N`   -> `ok <#primes> <checked cells>` or `mismatch <what> <index> impl=<..> ref=<..>`: Sieve::new(N)
 //!                compared element by element with an independent odd-only segmented sieve of
 //!                Eratosthenes written here, and factorize(m) checked for every m <= N
 //!                (implementation-only search, never counted as proof)
+//!   `sweep LO HI` -> `big` without the all-m factorisation for EVERY limit N = HI, HI-1, ..., LO in this process
+//!                (descending: a smaller limit always follows a larger one); factorize(m) for the top 9 m of every N.
+//!                `ok <#limits> <checked cells>` or `mismatch N=<limit> ...`
 //! A panic of Sieve::new itself prints `P`.
 use rlib_sieve::Sieve;
 use std::fmt::Write;
+use std::sync::atomic::{AtomicU64, Ordering};
 
-fn tab(n: usize) -> String {
-    let s = Sieve::new(n);
+const CAP: usize = 64; // more prime powers than any i32 has
+
+#[derive(Clone, Copy, PartialEq, Debug)]
+enum End {
+    Done,
+    Panic,
+    Long,
+}
+
+/// what one factorize(m) gave: the pairs, and how it ended
+#[derive(Clone, PartialEq, Debug)]
+struct Fz {
+    pairs: Vec<(i32, i32)>,
+    end: End,
+}
+
+type Pc = (i32, i32);
+
+fn tab_line(mnp: &[i32], isp: &[bool], primes: &[i32]) -> String {
     let mut o = String::from("T");
-    for m in 0..=n {
-        write!(o, " {}", s.min_prime(m as i32)).unwrap();
+    for x in mnp {
+        write!(o, " {}", x).unwrap();
     }
     o.push_str(" | ");
-    for m in 0..=n {
-        o.push(if s.is_prime(m as i32) { '1' } else { '0' });
+    for &b in isp {
+        o.push(if b { '1' } else { '0' });
     }
     o.push_str(" |");
-    for p in s.primes() {
+    for p in primes {
         write!(o, " {}", p).unwrap();
     }
     o
 }
 
-fn fact(n: usize) -> String {
-    let s = Sieve::new(n);
+fn fact_line(fz: &[Fz]) -> String {
     let mut o = String::from("F");
-    for m in 0..=n {
-        let mut it = s.factorize(m as i32);
-        let mut steps = 0usize;
-        loop {
-            match vh::guarded(|| it.next()) {
-                Some(Some((p, c))) => write!(o, " {} {}", p, c).unwrap(),
-                Some(None) => break,
-                None => {
-                    o.push_str(" -2");
-                    break;
-                }
-            }
-            steps += 1;
-            if steps > 64 {
-                // more prime powers than any i32 has: report as a wrong (over-long) answer
-                break;
-            }
+    for f in fz {
+        for (p, c) in &f.pairs {
+            write!(o, " {} {}", p, c).unwrap();
+        }
+        if f.end == End::Panic {
+            o.push_str(" -2");
         }
         o.push_str(" -1");
     }
     o
 }
 
+/// `next()` by hand until the first `None` / panic / CAP steps
+fn drain<I: Iterator<Item = Pc>>(it: &mut I) -> Fz {
+    let mut pairs = Vec::new();
+    loop {
+        match vh::guarded(|| it.next()) {
+            Some(Some(pc)) => pairs.push(pc),
+            Some(None) => return Fz { pairs, end: End::Done },
+            None => return Fz { pairs, end: End::Panic },
+        }
+        if pairs.len() > CAP {
+            // over-long answer: reported as it is (cut), the Coq side rejects it
+            return Fz { pairs, end: End::Long };
+        }
+    }
+}
+
+/// an iterator that has returned `None` keeps returning `None`
+fn after_none<I: Iterator<Item = Pc>>(it: &mut I, m: usize) -> Result<(), String> {
+    for k in 1..=2 {
+        match vh::guarded(|| it.next()) {
+            Some(None) => {}
+            Some(Some(pc)) => return Err(format!("factorize({}): next() call {} after None returned Some({:?})", m, k, pc)),
+            None => return Err(format!("factorize({}): next() call {} after None panicked", m, k)),
+        }
+    }
+    Ok(())
+}
+
+/// `for` loop with the partial result kept when the iterator panics
+fn by_for(s: &Sieve, m: usize) -> Fz {
+    let mut pairs = Vec::new();
+    let mut long = false;
+    let r = vh::guarded(|| {
+        for pc in s.factorize(m as i32) {
+            pairs.push(pc);
+            if pairs.len() > CAP {
+                long = true;
+                break;
+            }
+        }
+    });
+    let end = if r.is_none() {
+        End::Panic
+    } else if long {
+        End::Long
+    } else {
+        End::Done
+    };
+    Fz { pairs, end }
+}
+
+/// the provided Iterator methods against the result of the hand-written `next()` walk
+fn adaptors(s: &Sieve, m: usize, f: &Fz) -> Result<(), String> {
+    if f.end == End::Long {
+        return Ok(());
+    }
+    let mi = m as i32;
+    let done = f.end == End::Done;
+    let whole: Option<Vec<Pc>> = if done { Some(f.pairs.clone()) } else { None };
+    let bad = |what: &str, got: String, want: String| -> Result<(), String> {
+        Err(format!("factorize({}).{} = {} but next() gave {}", m, what, got, want))
+    };
+    let g = vh::guarded(|| s.factorize(mi).collect::<Vec<Pc>>());
+    if g != whole {
+        return bad("collect()", format!("{:?}", g), format!("{:?}", f));
+    }
+    let g = by_for(s, m);
+    if g != *f {
+        return bad("for-loop", format!("{:?}", g), format!("{:?}", f));
+    }
+    let g = vh::guarded(|| s.factorize(mi).count());
+    if g != whole.as_ref().map(|l| l.len()) {
+        return bad("count()", format!("{:?}", g), format!("{:?}", f));
+    }
+    let g = vh::guarded(|| s.factorize(mi).last());
+    if g != whole.as_ref().map(|l| l.last().copied()) {
+        return bad("last()", format!("{:?}", g), format!("{:?}", f));
+    }
+    let g = vh::guarded(|| {
+        s.factorize(mi).fold(Vec::new(), |mut v: Vec<Pc>, pc| {
+            v.push(pc);
+            v
+        })
+    });
+    if g != whole {
+        return bad("fold(push)", format!("{:?}", g), format!("{:?}", f));
+    }
+    let g = vh::guarded(|| s.factorize(mi).map(|(p, _)| p as i64).max());
+    if g != whole.as_ref().map(|l| l.iter().map(|&(p, _)| p as i64).max()) {
+        return bad("map(p).max()", format!("{:?}", g), format!("{:?}", f));
+    }
+    let g = vh::guarded(|| s.factorize(mi).map(|(_, c)| c as i64).sum::<i64>());
+    if g != whole.as_ref().map(|l| l.iter().map(|&(_, c)| c as i64).sum::<i64>()) {
+        return bad("map(c).sum()", format!("{:?}", g), format!("{:?}", f));
+    }
+    // nth(k): k inside, at the end, and one past the end
+    for k in [0usize, 1, f.pairs.len().saturating_sub(1), f.pairs.len(), f.pairs.len() + 1] {
+        let want: Option<Option<Pc>> = if k < f.pairs.len() {
+            Some(Some(f.pairs[k]))
+        } else if done {
+            Some(None)
+        } else {
+            None
+        };
+        let g = vh::guarded(|| s.factorize(mi).nth(k));
+        if g != want {
+            return bad(&format!("nth({})", k), format!("{:?}", g), format!("{:?}", f));
+        }
+    }
+    if done {
+        // size_hint before every next(): lower <= remaining <= upper
+        let mut it = s.factorize(mi);
+        for k in 0..=f.pairs.len() {
+            let rem = f.pairs.len() - k;
+            match vh::guarded(|| it.size_hint()) {
+                Some((lo, hi)) if lo <= rem && hi.map_or(true, |h| rem <= h) => {}
+                other => return bad(&format!("size_hint() after {} items", k), format!("{:?}", other), format!("{} remaining", rem)),
+            }
+            let _ = vh::guarded(|| it.next());
+        }
+        // consumed in two parts through by_ref
+        let mut it = s.factorize(mi);
+        let g = vh::guarded(|| {
+            let mut v: Vec<Pc> = it.by_ref().take(1).collect();
+            v.extend(&mut it);
+            v
+        });
+        if g != whole {
+            return bad("by_ref().take(1) + rest", format!("{:?}", g), format!("{:?}", f));
+        }
+        let g = vh::guarded(|| {
+            let mut pk = s.factorize(mi).peekable();
+            let first = pk.peek().copied();
+            let again = pk.peek().copied();
+            (first, again, pk.collect::<Vec<Pc>>())
+        });
+        let h = f.pairs.first().copied();
+        if g != Some((h, h, f.pairs.clone())) {
+            return bad("peekable()", format!("{:?}", g), format!("{:?}", f));
+        }
+        let g = vh::guarded(|| s.factorize(mi).chain(s.factorize(mi)).collect::<Vec<Pc>>());
+        let mut twice = f.pairs.clone();
+        twice.extend(f.pairs.iter().copied());
+        if g != Some(twice) {
+            return bad("chain(factorize(m))", format!("{:?}", g), format!("{:?}", f));
+        }
+    }
+    Ok(())
+}
+
+fn tab(n: usize) -> Result<String, String> {
+    let s = Sieve::new(n);
+    let mnp: Vec<i32> = (0..=n).map(|m| s.min_prime(m as i32)).collect();
+    let isp: Vec<bool> = (0..=n).map(|m| s.is_prime(m as i32)).collect();
+    let primes: Vec<i32> = s.primes().clone();
+    // the same object again: descending and interleaved, primes() a second and third time
+    if *s.primes() != primes {
+        return Err(format!("N={}: second primes() call differs from the first", n));
+    }
+    for m in (0..=n).rev() {
+        let (a, b) = (s.is_prime(m as i32), s.min_prime(m as i32));
+        if a != isp[m] {
+            return Err(format!("N={}: is_prime({}) first={} again={}", n, m, isp[m], a));
+        }
+        if b != mnp[m] {
+            return Err(format!("N={}: min_prime({}) first={} again={}", n, m, mnp[m], b));
+        }
+    }
+    if *s.primes() != primes {
+        return Err(format!("N={}: third primes() call differs from the first", n));
+    }
+    Ok(tab_line(&mnp, &isp, &primes))
+}
+
+fn fact(n: usize) -> Result<String, String> {
+    let s = Sieve::new(n);
+    let mut all = Vec::with_capacity(n + 1);
+    for m in 0..=n {
+        let mut it = s.factorize(m as i32);
+        let f = drain(&mut it);
+        if f.end == End::Done {
+            after_none(&mut it, m).map_err(|e| format!("N={}: {}", n, e))?;
+        }
+        all.push(f);
+    }
+    for m in (0..=n).rev() {
+        adaptors(&s, m, &all[m]).map_err(|e| format!("N={}: {}", n, e))?;
+    }
+    Ok(fact_line(&all))
+}
+
+/// slots for values read more than once in a random history
+struct Slots {
+    n: usize,
+    mnp: Vec<Option<i32>>,
+    isp: Vec<Option<bool>>,
+    primes: Option<Vec<i32>>,
+}
+
+impl Slots {
+    fn new(n: usize) -> Self {
+        Slots { n, mnp: vec![None; n + 1], isp: vec![None; n + 1], primes: None }
+    }
+    fn min_prime(&mut self, s: &Sieve, m: usize) -> Result<(), String> {
+        let v = s.min_prime(m as i32);
+        match self.mnp[m] {
+            Some(old) if old != v => Err(format!("N={}: min_prime({}) first={} again={}", self.n, m, old, v)),
+            _ => {
+                self.mnp[m] = Some(v);
+                Ok(())
+            }
+        }
+    }
+    fn is_prime(&mut self, s: &Sieve, m: usize) -> Result<(), String> {
+        let v = s.is_prime(m as i32);
+        match self.isp[m] {
+            Some(old) if old != v => Err(format!("N={}: is_prime({}) first={} again={}", self.n, m, old, v)),
+            _ => {
+                self.isp[m] = Some(v);
+                Ok(())
+            }
+        }
+    }
+    fn primes(&mut self, s: &Sieve) -> Result<(), String> {
+        let v = s.primes();
+        match &self.primes {
+            Some(old) if old != v => Err(format!(
+                "N={}: primes() differs between two calls: first len {} again len {}",
+                self.n,
+                old.len(),
+                v.len()
+            )),
+            Some(_) => Ok(()),
+            None => {
+                self.primes = Some(v.clone());
+                Ok(())
+            }
+        }
+    }
+    fn read(&mut self, s: &Sieve, q: (u8, usize)) -> Result<(), String> {
+        match q.0 {
+            0 => self.min_prime(s, q.1),
+            1 => self.is_prime(s, q.1),
+            _ => self.primes(s),
+        }
+    }
+    /// the walk PrimeIter performs, on the recorded table (all cells it touches must have been read by now)
+    fn walk(&self, m: usize) -> Vec<Pc> {
+        let mut out = Vec::new();
+        let mut x = m;
+        while x != 1 && out.len() <= CAP {
+            let p = self.mnp[x].unwrap_or(0);
+            if p <= 1 {
+                break;
+            }
+            let mut c = 0;
+            while x != 1 && self.mnp[x].unwrap_or(0) == p {
+                x /= p as usize;
+                c += 1;
+            }
+            out.push((p, c));
+        }
+        out
+    }
+}
+
+/// random index in 0..=n, boundary values favoured
+fn pick(r: &mut vh::Sm, n: usize) -> usize {
+    let v = r.next();
+    match v % 8 {
+        0 => [0, 1, 2, n, n.saturating_sub(1), n / 2, 3, 4][((v >> 8) % 8) as usize].min(n),
+        _ => ((v >> 8) % (n as u64 + 1)) as usize,
+    }
+}
+
+/// optionally build another Sieve in this process before the one under test (larger, smaller, kept alive or dropped)
+fn pre_sieve(r: &mut vh::Sm, n: usize) -> Option<Sieve> {
+    match r.next() % 6 {
+        0 => {
+            let b = Sieve::new(2 * n + 70);
+            let _ = b.primes().len();
+            None
+        }
+        1 => Some(Sieve::new(2 * n + 70)),
+        2 => Some(Sieve::new(n + 1)),
+        3 => {
+            let b = Sieve::new(n / 2);
+            let _ = b.primes().len();
+            None
+        }
+        _ => None,
+    }
+}
+
+fn tabr(n: usize, seed: u64) -> Result<String, String> {
+    let mut r = vh::Sm(seed ^ (n as u64).wrapping_mul(0x9E3779B97F4A7C15));
+    let other = pre_sieve(&mut r, n);
+    let s = Sieve::new(n);
+    let mut sl = Slots::new(n);
+    let mut live = Vec::new(); // (m, iterator, pairs so far)
+    let mut seen: Vec<(usize, Vec<Pc>, bool)> = Vec::new(); // (m, pairs, complete)
+    let mut prev: (u8, usize) = (2, 0);
+    let steps = 3 * (n + 1) + 8;
+    for _ in 0..steps {
+        let v = r.next();
+        match v % 16 {
+            0..=4 => {
+                prev = (0, pick(&mut r, n));
+                sl.read(&s, prev)?;
+            }
+            5..=8 => {
+                prev = (1, pick(&mut r, n));
+                sl.read(&s, prev)?;
+            }
+            9 => {
+                prev = (2, 0);
+                sl.read(&s, prev)?;
+            }
+            10 => sl.read(&s, prev)?,
+            11 => {
+                let hi = pick(&mut r, n);
+                let lo = hi.saturating_sub(((v >> 8) % 9) as usize);
+                for m in (lo..=hi).rev() {
+                    sl.is_prime(&s, m)?;
+                    sl.min_prime(&s, m)?;
+                }
+            }
+            12 => {
+                if n >= 1 && live.len() < 3 {
+                    let m = 1 + pick(&mut r, n - 1);
+                    live.push((m, s.factorize(m as i32), Vec::new()));
+                }
+            }
+            13 | 14 => {
+                if !live.is_empty() {
+                    let k = ((v >> 8) % live.len() as u64) as usize;
+                    let finished = {
+                        let (m, it, pairs) = &mut live[k];
+                        match vh::guarded(|| it.next()) {
+                            Some(Some(pc)) => {
+                                pairs.push(pc);
+                                if pairs.len() > CAP {
+                                    return Err(format!("N={}: factorize({}) yields more than {} pairs", n, m, CAP));
+                                }
+                                false
+                            }
+                            Some(None) => {
+                                after_none(it, *m).map_err(|e| format!("N={}: {}", n, e))?;
+                                true
+                            }
+                            None => return Err(format!("N={}: factorize({}) panicked after {:?}", n, m, pairs)),
+                        }
+                    };
+                    if finished || (v >> 16) % 16 == 0 {
+                        // finished, or dropped half way
+                        let (m, _, pairs) = live.swap_remove(k);
+                        seen.push((m, pairs, finished));
+                    }
+                }
+            }
+            _ => {
+                if n >= 1 {
+                    let m = 1 + pick(&mut r, n - 1);
+                    match vh::guarded(|| s.factorize(m as i32).collect::<Vec<Pc>>()) {
+                        Some(l) if l.len() <= CAP => seen.push((m, l, true)),
+                        other => return Err(format!("N={}: factorize({}).collect() = {:?}", n, m, other.map(|l| l.len()))),
+                    }
+                }
+            }
+        }
+    }
+    for (m, _, pairs) in live.drain(..) {
+        seen.push((m, pairs, false));
+    }
+    // whatever has not been read yet: min_prime ascending, is_prime descending, primes() once more
+    for m in 0..=n {
+        sl.min_prime(&s, m)?;
+    }
+    for m in (0..=n).rev() {
+        sl.is_prime(&s, m)?;
+    }
+    sl.primes(&s)?;
+    for (m, pairs, complete) in &seen {
+        let w = sl.walk(*m);
+        let ok = if *complete { *pairs == w } else { pairs.len() <= w.len() && pairs[..] == w[..pairs.len()] };
+        if !ok {
+            return Err(format!(
+                "N={}: factorize({}) between table reads gave {:?} (complete={}), the table says {:?}",
+                n, m, pairs, complete, w
+            ));
+        }
+    }
+    drop(other);
+    let mnp: Vec<i32> = sl.mnp.iter().map(|x| x.unwrap()).collect();
+    let isp: Vec<bool> = sl.isp.iter().map(|x| x.unwrap()).collect();
+    Ok(tab_line(&mnp, &isp, sl.primes.as_ref().unwrap()))
+}
+
+fn factr(n: usize, seed: u64) -> Result<String, String> {
+    let mut r = vh::Sm(seed ^ (n as u64).wrapping_mul(0xD1B54A32D192ED03));
+    let other = pre_sieve(&mut r, n);
+    let s = Sieve::new(n);
+    let mut sl = Slots::new(n);
+    // every m once, plus repeats, in random order
+    let mut order: Vec<usize> = (0..=n).collect();
+    for _ in 0..(n / 4 + 2) {
+        order.push(pick(&mut r, n));
+    }
+    for i in (1..order.len()).rev() {
+        let j = (r.next() % (i as u64 + 1)) as usize;
+        order.swap(i, j);
+    }
+    let mut res: Vec<Option<Fz>> = vec![None; n + 1];
+    fn record(res: &mut [Option<Fz>], n: usize, m: usize, f: Fz, how: &str) -> Result<(), String> {
+        match &res[m] {
+            Some(old) if *old != f => Err(format!("N={}: factorize({}) first {:?}, again ({}) {:?}", n, m, old, how, f)),
+            _ => {
+                res[m] = Some(f);
+                Ok(())
+            }
+        }
+    }
+    let mut live = Vec::new(); // (m, iterator, pairs so far)
+    let mut idx = 0usize;
+    while idx < order.len() || !live.is_empty() {
+        let v = r.next();
+        if (v >> 4) % 4 == 0 {
+            let q = (((v >> 8) % 3) as u8, pick(&mut r, n));
+            sl.read(&s, q)?;
+        }
+        let start = idx < order.len() && live.len() < 3 && (live.is_empty() || v % 8 < 3);
+        if start {
+            let m = order[idx];
+            idx += 1;
+            match (v >> 16) % 4 {
+                0 | 1 => live.push((m, s.factorize(m as i32), Vec::new())),
+                2 => record(&mut res, n, m, by_for(&s, m), "for-loop")?,
+                _ => {
+                    // first item through by_ref().take(1), the rest by hand
+                    let mut it = s.factorize(m as i32);
+                    let head = vh::guarded(|| it.by_ref().take(1).collect::<Vec<Pc>>());
+                    let f = match head {
+                        None => Fz { pairs: Vec::new(), end: End::Panic },
+                        Some(h) if h.is_empty() => {
+                            after_none(&mut it, m).map_err(|e| format!("N={}: {}", n, e))?;
+                            Fz { pairs: h, end: End::Done }
+                        }
+                        Some(mut h) => {
+                            let rest = drain(&mut it);
+                            h.extend(rest.pairs);
+                            Fz { pairs: h, end: rest.end }
+                        }
+                    };
+                    record(&mut res, n, m, f, "by_ref().take(1) + next()")?;
+                }
+            }
+        } else if !live.is_empty() {
+            let k = ((v >> 8) % live.len() as u64) as usize;
+            let end = {
+                let (m, it, pairs) = &mut live[k];
+                match vh::guarded(|| it.next()) {
+                    Some(Some(pc)) => {
+                        pairs.push(pc);
+                        if pairs.len() > CAP {
+                            Some(End::Long)
+                        } else {
+                            None
+                        }
+                    }
+                    Some(None) => {
+                        after_none(it, *m).map_err(|e| format!("N={}: {}", n, e))?;
+                        Some(End::Done)
+                    }
+                    None => Some(End::Panic),
+                }
+            };
+            if let Some(end) = end {
+                let (m, _, pairs) = live.swap_remove(k);
+                record(&mut res, n, m, Fz { pairs, end }, "interleaved next()")?;
+            }
+        }
+    }
+    drop(other);
+    let all: Vec<Fz> = res.into_iter().map(|x| x.unwrap()).collect();
+    Ok(fact_line(&all))
+}
+
 /// independent reference: least prime factor of every m <= n.
 /// Even numbers get 2; odd numbers are sieved in segments of 2^15 odd cells by the odd base primes
 /// <= sqrt(n) in increasing order (first marker wins = least prime factor); unmarked odd m >= 3 is prime.
+/// (the value of a cell does not depend on n: a prefix of the table for a larger n is the table for a smaller n)
 fn reference_lpf(n: usize) -> Vec<u32> {
     let mut lpf = vec![0u32; n + 1];
     let mut m = 4;
@@ -112,36 +627,34 @@ fn reference_lpf(n: usize) -> Vec<u32> {
     lpf
 }
 
-fn big(n: usize) -> String {
-    let s = Sieve::new(n);
-    let lpf = reference_lpf(n);
+/// Sieve::new(n) against the reference table `lpf` (valid for indices 0..=n at least) and the reference prime
+/// list `rp` (all primes <= n, possibly more: only those <= n are used); factorize(m) for m in fact_from..=n.
+/// Ok((#primes, checked cells)) or Err(description)
+fn compare(s: &Sieve, n: usize, lpf: &[u32], rp: &[u32], fact_from: usize) -> Result<(usize, usize), String> {
     let mut checked = 0usize;
     for m in 0..=n {
         let want = if m < 2 { 0 } else { lpf[m] as i32 };
         if m >= 2 && s.min_prime(m as i32) != want {
-            return format!("mismatch min_prime {} impl={} ref={}", m, s.min_prime(m as i32), want);
+            return Err(format!("min_prime {} impl={} ref={}", m, s.min_prime(m as i32), want));
         }
         let wp = m >= 2 && lpf[m] as usize == m;
         if s.is_prime(m as i32) != wp {
-            return format!("mismatch is_prime {} impl={} ref={}", m, s.is_prime(m as i32), wp);
+            return Err(format!("is_prime {} impl={} ref={}", m, s.is_prime(m as i32), wp));
         }
         checked += 2;
     }
-    let mut j = 0usize;
     let pr = s.primes();
-    for m in 2..=n {
-        if lpf[m] as usize == m {
-            if j >= pr.len() || pr[j] as usize != m {
-                return format!("mismatch primes {} impl={} ref={}", j, if j < pr.len() { pr[j] } else { -1 }, m);
-            }
-            j += 1;
+    let cnt = rp.partition_point(|&p| p as usize <= n);
+    for j in 0..cnt {
+        if j >= pr.len() || pr[j] as u32 != rp[j] {
+            return Err(format!("primes {} impl={} ref={}", j, if j < pr.len() { pr[j] } else { -1 }, rp[j]));
         }
     }
-    if j != pr.len() {
-        return format!("mismatch primes {} impl={} ref=end", j, pr[j]);
+    if pr.len() != cnt {
+        return Err(format!("primes {} impl={} ref=end", cnt, pr[cnt]));
     }
     // factorize(m) against repeated division by the reference table
-    for m in 1..=n {
+    for m in fact_from.max(1)..=n {
         let mut x = m;
         let mut it = s.factorize(m as i32);
         while x > 1 {
@@ -153,35 +666,89 @@ fn big(n: usize) -> String {
             }
             match vh::guarded(|| it.next()) {
                 Some(Some((ip, ic))) if ip as usize == p && ic == c => {}
-                other => return format!("mismatch factorize {} impl={:?} ref=({},{})", m, other, p, c),
+                other => return Err(format!("factorize {} impl={:?} ref=({},{})", m, other, p, c)),
             }
         }
         match vh::guarded(|| it.next()) {
             Some(None) => {}
-            other => return format!("mismatch factorize {} impl={:?} ref=end", m, other),
+            other => return Err(format!("factorize {} impl={:?} ref=end", m, other)),
         }
         checked += 1;
     }
-    format!("ok {} {}", pr.len(), checked)
+    Ok((cnt, checked))
 }
+
+fn ref_primes(lpf: &[u32]) -> Vec<u32> {
+    (2..lpf.len()).filter(|&m| lpf[m] as usize == m).map(|m| m as u32).collect()
+}
+
+fn big(n: usize) -> String {
+    let s = Sieve::new(n);
+    let lpf = reference_lpf(n);
+    let rp = ref_primes(&lpf);
+    match compare(&s, n, &lpf, &rp, 1) {
+        Ok((np, checked)) => format!("ok {} {}", np, checked),
+        Err(e) => format!("mismatch {}", e),
+    }
+}
+
+fn sweep(lo: usize, hi: usize) -> String {
+    let lpf = reference_lpf(hi);
+    let rp = ref_primes(&lpf);
+    let (mut limits, mut checked) = (0usize, 0usize);
+    for n in (lo..=hi).rev() {
+        let s = match vh::guarded(|| Sieve::new(n)) {
+            Some(s) => s,
+            None => return format!("mismatch N={} Sieve::new panicked", n),
+        };
+        match vh::guarded(|| compare(&s, n, &lpf, &rp, n.saturating_sub(8))) {
+            Some(Ok((_, c))) => checked += c,
+            Some(Err(e)) => return format!("mismatch N={} {}", n, e),
+            None => return format!("mismatch N={} an accessor panicked", n),
+        }
+        limits += 1;
+    }
+    format!("ok {} {}", limits, checked)
+}
+
+static PROGRESS: AtomicU64 = AtomicU64::new(0);
 
 fn main() {
     // a mutated inner loop of factorize can spin forever (p = 1): never hang the check
+    // (900 s without finishing one input line)
     std::thread::spawn(|| {
-        std::thread::sleep(std::time::Duration::from_secs(900));
-        eprintln!("harness: watchdog (900 s)");
-        std::process::exit(4);
+        let mut last = (PROGRESS.load(Ordering::Relaxed), std::time::Instant::now());
+        loop {
+            std::thread::sleep(std::time::Duration::from_secs(5));
+            let now = PROGRESS.load(Ordering::Relaxed);
+            if now != last.0 {
+                last = (now, std::time::Instant::now());
+            } else if last.1.elapsed().as_secs() >= 900 {
+                eprintln!("harness: watchdog (900 s on one input line)");
+                std::process::exit(4);
+            }
+        }
     });
     vh::serve(|t| {
+        PROGRESS.fetch_add(1, Ordering::Relaxed);
         let n: usize = vh::p(t[1]);
-        match t[0] {
-            "tab" => tab(n),
-            "fact" => fact(n),
+        let incoherent = |r: Result<String, String>| match r {
+            Ok(s) => s,
+            Err(e) => format!("X {} {}", t[0], e),
+        };
+        let out = match t[0] {
+            "tab" => incoherent(tab(n)),
+            "fact" => incoherent(fact(n)),
+            "tabr" => incoherent(tabr(n, vh::p(t[2]))),
+            "factr" => incoherent(factr(n, vh::p(t[2]))),
             "big" => big(n),
+            "sweep" => sweep(n, vh::p(t[2])),
             other => {
                 eprintln!("harness: unknown query {}", other);
                 std::process::exit(3)
             }
-        }
+        };
+        PROGRESS.fetch_add(1, Ordering::Relaxed);
+        out
     });
 }
